@@ -1011,12 +1011,15 @@ class MPO(MPSGeometry):
         ]
 
         IdLR = []
+        chi_0 = U[0].shape[0]  # (before the projections below)
         for i in range(0, self.L):  # correct?
             U1 = U[i]
             U2 = U[(i + 1) % self.L]
             IdL = self.IdL[i + 1]
             IdR = self.IdR[i + 1]
             assert IdL is not None and IdR is not None
+            IdL = IdL % U1.shape[1]  # (stored indices may count from the end, e.g. -1 after `+`)
+            IdR = IdR % U1.shape[1]
             U1[:, IdL, :, :] = U1[:, IdL, :, :] + dt * U1[:, IdR, :, :]
             keep = np.ones(U1.shape[1], dtype=bool)
             keep[IdR] = False
@@ -1035,6 +1038,8 @@ class MPO(MPSGeometry):
         IdL = self.IdL[0]
         IdR = self.IdR[0]
         assert IdL is not None and IdR is not None
+        IdL = IdL % chi_0
+        IdR = IdR % chi_0
         if IdL > IdR:
             IdLR_0 = IdL - 1
         else:
